@@ -281,6 +281,7 @@ func (w *bwalker) stmt(st ast.Stmt) string {
 
 func extractBalance(repo string) (string, error) {
 	var units []bunit
+	recvOf := map[string]string{}
 	sites := 0
 	for _, file := range balanceFiles {
 		if src, err := os.ReadFile(filepath.Join(repo, file)); err == nil {
@@ -301,6 +302,9 @@ func extractBalance(repo string) (string, error) {
 			name := fd.Name.Name
 			if fd.Recv != nil && len(fd.Recv.List) == 1 {
 				name = strings.TrimPrefix(exprStr(fd.Recv.List[0].Type), "*") + "." + name
+				if len(fd.Recv.List[0].Names) == 1 {
+					recvOf[file+":"+name] = fd.Recv.List[0].Names[0].Name
+				}
 			}
 			w := &bwalker{file: file, fn: name, units: &units}
 			body := w.block(fd.Body.List)
@@ -321,6 +325,118 @@ func extractBalance(repo string) (string, error) {
 		nops += u.ops
 	}
 	sb.WriteString(fmt.Sprintf("def units : List (String × LS) := [\n  %s]\n\n", strings.Join(names, ",\n  ")))
+	// call-graph summaries of every function of those files (also the ones without a lock
+	// operation): mutexes taken directly and callees named, on the function's own thread
+	// (`go` closures excluded, other function literals included)
+	var sums []string
+	allLocks, allCallees := map[string]bool{}, map[string]bool{}
+	for _, file := range balanceFiles {
+		fset := token.NewFileSet()
+		f, err := parser.ParseFile(fset, filepath.Join(repo, file), nil, 0)
+		if err != nil {
+			return "", err
+		}
+		for _, d := range f.Decls {
+			fd, ok := d.(*ast.FuncDecl)
+			if !ok || fd.Body == nil {
+				continue
+			}
+			name := fd.Name.Name
+			if fd.Recv != nil && len(fd.Recv.List) == 1 {
+				name = strings.TrimPrefix(exprStr(fd.Recv.List[0].Type), "*") + "." + name
+			}
+			tk, cs := map[string]bool{}, map[string]bool{}
+			var visit func(n ast.Node)
+			visit = func(n ast.Node) {
+				ast.Inspect(n, func(x ast.Node) bool {
+					switch y := x.(type) {
+					case *ast.GoStmt:
+						for _, a := range y.Call.Args {
+							visit(a)
+						}
+						if _, ok := y.Call.Fun.(*ast.FuncLit); ok {
+							return false
+						}
+						cs[exprStr(y.Call.Fun)] = true
+						return false
+					case *ast.CallExpr:
+						if op, l := lockOp(y); op == "lock" {
+							tk[l] = true
+						} else if op == "" {
+							if n := exprStr(y.Fun); n != "" {
+								cs[n] = true
+							}
+						}
+					}
+					return true
+				})
+			}
+			visit(fd.Body)
+			q := func(m map[string]bool) string {
+				var l []string
+				for k := range m {
+					l = append(l, fmt.Sprintf("%q", k))
+				}
+				sort.Strings(l)
+				return "[" + strings.Join(l, ", ") + "]"
+			}
+			recv := ""
+			if fd.Recv != nil && len(fd.Recv.List) == 1 && len(fd.Recv.List[0].Names) == 1 {
+				recv = fd.Recv.List[0].Names[0].Name
+			}
+			typ, meth := "", name
+			if k := strings.Index(name, "."); k >= 0 {
+				typ, meth = name[:k], name[k+1:]
+			}
+			for k := range tk {
+				allLocks[k] = true
+			}
+			for k := range cs {
+				allCallees[k] = true
+			}
+			sums = append(sums, fmt.Sprintf("⟨%q, %q, %q, %q, %s, %s⟩", file+":"+name, typ, meth, recv, q(tk), q(cs)))
+		}
+	}
+	sort.Strings(sums)
+	sb.WriteString("structure Summary where\n  name : String\n  typ : String\n  method : String\n  recv : String\n  takes : List String\n  callees : List String\nderiving Repr, DecidableEq\n\n")
+	sb.WriteString(fmt.Sprintf("def summaries : List Summary := [\n  %s]\n\n", strings.Join(sums, ",\n  ")))
+	// dotted names split into components, so that the Lean side needs no string surgery
+	var cc, lf, ub []string
+	for k := range allCallees {
+		var comps []string
+		for _, c := range strings.Split(k, ".") {
+			comps = append(comps, fmt.Sprintf("%q", c))
+		}
+		cc = append(cc, fmt.Sprintf("(%q, [%s])", k, strings.Join(comps, ", ")))
+	}
+	sort.Strings(cc)
+	sb.WriteString(fmt.Sprintf("def calleeComps : List (String × List String) := [\n  %s]\n\n", strings.Join(cc, ",\n  ")))
+	for k := range allLocks {
+		f := k
+		if i := strings.LastIndex(k, "."); i >= 0 {
+			f = k[i+1:]
+		}
+		lf = append(lf, fmt.Sprintf("(%q, %q)", k, f))
+	}
+	sort.Strings(lf)
+	sb.WriteString(fmt.Sprintf("/-- mutex expression ↦ field (or variable) name -/\ndef lockField : List (String × String) := [%s]\n\n", strings.Join(lf, ", ")))
+	for _, u := range units {
+		base := u.name
+		if k := strings.Index(base, "$"); k >= 0 {
+			base = base[:k]
+		}
+		ub = append(ub, fmt.Sprintf("(%q, %q)", u.name, base))
+	}
+	sb.WriteString(fmt.Sprintf("/-- unit ↦ the function it is (part of) -/\ndef unitBase : List (String × String) := [\n  %s]\n\n", strings.Join(ub, ",\n  ")))
+	var rs []string
+	for _, u := range units {
+		base := u.name
+		if k := strings.Index(base, "$"); k >= 0 {
+			base = base[:k]
+		}
+		rs = append(rs, fmt.Sprintf("(%q, %q)", u.name, recvOf[base]))
+	}
+	sb.WriteString(fmt.Sprintf("/-- the receiver variable of each unit's enclosing method (\"\" for a plain function) -/\ndef receivers : List (String × String) := [\n  %s]\n\n", strings.Join(rs, ",\n  ")))
 	sb.WriteString(fmt.Sprintf("/-- lock / unlock operations translated -/\ndef lockOps : Nat := %d\n\n", nops))
 	sb.WriteString(fmt.Sprintf("/-- textual occurrences of .Lock() / .Unlock() / .RLock() / .RUnlock() in those files -/\ndef lockSites : Nat := %d\n\n", sites))
 	sb.WriteString("end GV.Generated.Balance\n")
